@@ -102,18 +102,18 @@ end
 /-! ### Negation push-down -/
 
 /-- matchNone(!not) is the complement of matchNone(not). -/
-theorem matchNone_flip (d : Elem) (n : Bool) :
+theorem matchNone_flip (d : Res) (n : Bool) :
     mEval d (if (!n) = true then MDoc.all else MDoc.nothing) =
       (mEval d (if n = true then MDoc.all else MDoc.nothing)).map (!·) := by
   cases n <;> simp [mEval]
 
-theorem matchAll_flip (d : Elem) (n : Bool) :
+theorem matchAll_flip (d : Res) (n : Bool) :
     mEval d (if (!n) = true then MDoc.nothing else MDoc.all) =
       (mEval d (if n = true then MDoc.nothing else MDoc.all)).map (!·) := by
   cases n <;> simp [mEval]
 
 /-- `{key: {$not: expr}}` against `{key: expr}`. -/
-theorem field_flip (d : Elem) (k : String) (o : MOp) (n : Bool) (h : o ≠ .empty) :
+theorem field_flip (d : Res) (k : String) (o : MOp) (n : Bool) (h : o ≠ .empty) :
     mEval d (.field k (if (!n) = true then .not o else o)) =
       (mEval d (.field k (if n = true then .not o else o))).map (!·) := by
   cases n
@@ -121,7 +121,7 @@ theorem field_flip (d : Elem) (k : String) (o : MOp) (n : Bool) (h : o ≠ .empt
   · simp only [mEval, evalOp_not _ _ h, Bool.not_true, if_true, Bool.false_eq_true, if_false]
     exact (map_not_not _).symm
 
-theorem convCond_flip (d : Elem) (k : String) (c : Cond) (a : JV) (n : Bool)
+theorem convCond_flip (d : Res) (k : String) (c : Cond) (a : JV) (n : Bool)
     (h : opOf c a ≠ .empty) :
     mEval d (convCond k c a (!n)) = (mEval d (convCond k c a n)).map (!·) := by
   cases c
@@ -138,7 +138,7 @@ theorem convCond_flip (d : Elem) (k : String) (c : Cond) (a : JV) (n : Bool)
   all_goals exact field_flip d k _ n h
 
 /-- and/or of the members, empty member lists included. -/
-theorem junction_flip (d : Elem) (isAnd n : Bool) (xs ys : List MDoc)
+theorem junction_flip (d : Res) (isAnd n : Bool) (xs ys : List MDoc)
     (hl : mEvalList d ys = (mEvalList d xs).map (Option.map (!·)))
     (he : ys.isEmpty = xs.isEmpty) :
     mEval d (junction isAnd (!n) ys) = (mEval d (junction isAnd n xs)).map (!·) := by
@@ -150,7 +150,7 @@ theorem junction_flip (d : Elem) (isAnd n : Bool) (xs ys : List MDoc)
     cases isAnd <;> cases n <;> simp [junction, he, hx, hA, hO]
   · cases isAnd <;> cases n <;> simp [junction, he, hx, mEval]
 
-theorem convRange_flip (d : Elem) (k : String) (c1 c2 : Cond) (isAnd : Bool) (a : JV) (n : Bool)
+theorem convRange_flip (d : Res) (k : String) (c1 c2 : Cond) (isAnd : Bool) (a : JV) (n : Bool)
     (h1 : ∀ x, opOf c1 x ≠ .empty) (h2 : ∀ x, opOf c2 x ≠ .empty) :
     mEval d (convRange k c1 c2 isAnd a (!n)) = (mEval d (convRange k c1 c2 isAnd a n)).map (!·) := by
   have bad := matchNone_flip d n
@@ -171,7 +171,7 @@ theorem convertList_isEmpty (es : List HasE) (n : Bool) : (convertList es n).isE
   cases es <;> simp [convertList]
 
 /-- One leaf, every argument: push-down needs only a condition the `switch` lists. -/
-theorem leaf_pushdown (d : Elem) (k : String) (c : Cond) (a : JV) (n : Bool)
+theorem leaf_pushdown (d : Res) (k : String) (c : Cond) (a : JV) (n : Bool)
     (h : leafWellFormed c = true) :
     mEval d (convert (.cond k c a) (!n)) = (mEval d (convert (.cond k c a) n)).map (!·) := by
   cases c <;> simp only [convert]
@@ -184,7 +184,7 @@ theorem leaf_pushdown (d : Elem) (k : String) (c : Cond) (a : JV) (n : Bool)
 mutual
   /-- Push-down for every polarity and every well-formed expression (any depth, any arguments, any
       member lists — empty ones included). -/
-  theorem pushdown (d : Elem) : ∀ (e : HasE) (n : Bool), wellFormed e = true →
+  theorem pushdown (d : Res) : ∀ (e : HasE) (n : Bool), wellFormed e = true →
       mEval d (convert e (!n)) = (mEval d (convert e n)).map (!·)
     | .cond k c a, n, h => by
       simp only [wellFormed] at h
@@ -202,7 +202,7 @@ mutual
       simp only [convert]
       exact pushdown d x (!n) h
     | .none, _, h => by simp [wellFormed] at h
-  theorem pushdownList (d : Elem) : ∀ (es : List HasE) (n : Bool), wellFormedList es = true →
+  theorem pushdownList (d : Res) : ∀ (es : List HasE) (n : Bool), wellFormedList es = true →
       mEvalList d (convertList es (!n)) = (mEvalList d (convertList es n)).map (Option.map (!·))
     | [], _, _ => by simp [convertList, mEvalList]
     | x :: xs, n, h => by
@@ -232,7 +232,7 @@ theorem orOpt_isSome (xs : List (Option Bool)) (h : ∀ x ∈ xs, x.isSome = tru
     cases x <;> simp_all [orOpt]
     cases hq : orOpt xs <;> simp_all
 
-theorem junction_valid (d : Elem) (isAnd n : Bool) (xs : List MDoc)
+theorem junction_valid (d : Res) (isAnd n : Bool) (xs : List MDoc)
     (h : ∀ x ∈ mEvalList d xs, x.isSome = true) :
     (mEval d (junction isAnd n xs)).isSome = true := by
   cases hx : xs.isEmpty
@@ -240,15 +240,15 @@ theorem junction_valid (d : Elem) (isAnd n : Bool) (xs : List MDoc)
       simp [junction, hx, mEval, andOpt_isSome _ h, orOpt_isSome _ h]
   · cases isAnd <;> cases n <;> simp [junction, hx, mEval]
 
-theorem field_valid (d : Elem) (k : String) (o : MOp) (n : Bool) (h : o ≠ .empty)
-    (hv : (evalOp o (lookup d k)).isSome = true) :
+theorem field_valid (d : Res) (k : String) (o : MOp) (n : Bool) (h : o ≠ .empty)
+    (hv : (evalOp o (d k)).isSome = true) :
     (mEval d (.field k (if n = true then .not o else o))).isSome = true := by
   cases n
   · simpa [mEval] using hv
   · simp only [mEval, if_true, evalOp_not _ _ h]
-    cases hq : evalOp o (lookup d k) <;> simp_all
+    cases hq : evalOp o (d k) <;> simp_all
 
-theorem convCond_valid (d : Elem) (k : String) (c : Cond) (a : JV) (n : Bool)
+theorem convCond_valid (d : Res) (k : String) (c : Cond) (a : JV) (n : Bool)
     (h : c ≠ .unset ∧ c ≠ .inside ∧ c ≠ .outside ∧ c ≠ .between) :
     (mEval d (convCond k c a n)).isSome = true := by
   have hne := opOf_ne_empty c a h
@@ -275,9 +275,9 @@ theorem convCond_valid (d : Elem) (k : String) (c : Cond) (a : JV) (n : Bool)
     (simp only [convCond]
      apply field_valid d k _ n hne
      simp [opOf, evalOp])
-  case contains => cases lookup d k <;> simp
+  case contains => cases d k <;> simp
 
-theorem convRange_valid (d : Elem) (k : String) (c1 c2 : Cond) (isAnd : Bool) (a : JV) (n : Bool)
+theorem convRange_valid (d : Res) (k : String) (c1 c2 : Cond) (isAnd : Bool) (a : JV) (n : Bool)
     (h1 : c1 ≠ .unset ∧ c1 ≠ .inside ∧ c1 ≠ .outside ∧ c1 ≠ .between)
     (h2 : c2 ≠ .unset ∧ c2 ≠ .inside ∧ c2 ≠ .outside ∧ c2 ≠ .between) :
     (mEval d (convRange k c1 c2 isAnd a n)).isSome = true := by
@@ -299,7 +299,7 @@ theorem convRange_valid (d : Elem) (k : String) (c1 c2 : Cond) (isAnd : Bool) (a
     | _ :: _ :: _ :: _ => simpa [convRange] using bad
   | _ => simpa [convRange] using bad
 
-theorem leaf_valid (d : Elem) (k : String) (c : Cond) (a : JV) (n : Bool)
+theorem leaf_valid (d : Res) (k : String) (c : Cond) (a : JV) (n : Bool)
     (h : leafWellFormed c = true) : (mEval d (convert (.cond k c a) n)).isSome = true := by
   cases c <;> simp only [convert]
   case inside => exact convRange_valid d k _ _ _ a n (by simp) (by simp)
@@ -310,7 +310,7 @@ theorem leaf_valid (d : Elem) (k : String) (c : Cond) (a : JV) (n : Bool)
 
 mutual
   /-- MongoDB accepts the filter emitted for any well-formed expression, whatever the polarity. -/
-  theorem valid (d : Elem) : ∀ (e : HasE) (n : Bool), wellFormed e = true →
+  theorem valid (d : Res) : ∀ (e : HasE) (n : Bool), wellFormed e = true →
       (mEval d (convert e n)).isSome = true
     | .cond k c a, n, h => by
       simp only [wellFormed] at h
@@ -328,7 +328,7 @@ mutual
       simp only [convert]
       exact valid d x (!n) h
     | .none, _, h => by simp [wellFormed] at h
-  theorem validList (d : Elem) : ∀ (es : List HasE) (n : Bool), wellFormedList es = true →
+  theorem validList (d : Res) : ∀ (es : List HasE) (n : Bool), wellFormedList es = true →
       ∀ x ∈ mEvalList d (convertList es n), x.isSome = true
     | [], _, _ => by simp [convertList, mEvalList]
     | y :: ys, n, h => by
@@ -415,7 +415,7 @@ theorem allTrue_not (bs : List Bool) : allTrue (bs.map (!·)) = !(anyTrue bs) :=
 /-- What a polarity does to the core answer. -/
 def pol (n b : Bool) : Bool := b != n
 
-theorem junction_equiv (d : Elem) (isAnd n : Bool) (xs : List MDoc) (bs : List Bool)
+theorem junction_equiv (d : Res) (isAnd n : Bool) (xs : List MDoc) (bs : List Bool)
     (hl : mEvalList d xs = bs.map (fun b => some (pol n b)))
     (he : xs.isEmpty = bs.isEmpty) :
     mEval d (junction isAnd n xs) = some (pol n (if isAnd then allTrue bs else anyTrue bs)) := by
@@ -446,46 +446,46 @@ mutual
     | x :: xs => allLeaves p x && allLeavesList p xs
 end
 
-theorem evalList_isEmpty (numOf : String → Option Int) (d : Elem) (es : List HasE) :
-    (evalList numOf d es).isEmpty = es.isEmpty := by
-  cases es <;> simp [evalList]
+theorem evalList_isEmpty (numOf : String → Option Int) (d : Res) (es : List HasE) :
+    (evalByList numOf d es).isEmpty = es.isEmpty := by
+  cases es <;> simp [evalByList]
 
 mutual
   /-- If every leaf is compiled to a filter that answers what the core engine answers, under both
       polarities, then so is the whole expression, under both polarities. -/
-  theorem equiv_gen (numOf : String → Option Int) (d : Elem) (p : String → Cond → JV → Bool)
+  theorem equiv_gen (numOf : String → Option Int) (d : Res) (p : String → Cond → JV → Bool)
       (hp : ∀ k c a, p k c a = true → ∀ n,
-        mEval d (convert (.cond k c a) n) = some (pol n (matchesCond numOf (lookup d k) c a))) :
+        mEval d (convert (.cond k c a) n) = some (pol n (matchesCond numOf (d k) c a))) :
       ∀ (e : HasE) (n : Bool), allLeaves p e = true →
-        mEval d (convert e n) = some (pol n (eval numOf d e))
+        mEval d (convert e n) = some (pol n (evalBy numOf d e))
     | .cond k c a, n, h => by
       simp only [allLeaves] at h
-      simp only [eval]
+      simp only [evalBy]
       exact hp k c a h n
     | .and es, n, h => by
       simp only [allLeaves] at h
-      simp only [convert, eval]
+      simp only [convert, evalBy]
       exact junction_equiv d true n _ _ (equiv_genList numOf d p hp es n h)
         (by simp [convertList_isEmpty, evalList_isEmpty])
     | .or es, n, h => by
       simp only [allLeaves] at h
-      simp only [convert, eval]
+      simp only [convert, evalBy]
       exact junction_equiv d false n _ _ (equiv_genList numOf d p hp es n h)
         (by simp [convertList_isEmpty, evalList_isEmpty])
     | .not x, n, h => by
       simp only [allLeaves] at h
-      simp only [convert, eval, equiv_gen numOf d p hp x (!n) h]
-      cases n <;> cases eval numOf d x <;> rfl
+      simp only [convert, evalBy, equiv_gen numOf d p hp x (!n) h]
+      cases n <;> cases evalBy numOf d x <;> rfl
     | .none, _, h => by simp [allLeaves] at h
-  theorem equiv_genList (numOf : String → Option Int) (d : Elem) (p : String → Cond → JV → Bool)
+  theorem equiv_genList (numOf : String → Option Int) (d : Res) (p : String → Cond → JV → Bool)
       (hp : ∀ k c a, p k c a = true → ∀ n,
-        mEval d (convert (.cond k c a) n) = some (pol n (matchesCond numOf (lookup d k) c a))) :
+        mEval d (convert (.cond k c a) n) = some (pol n (matchesCond numOf (d k) c a))) :
       ∀ (es : List HasE) (n : Bool), allLeavesList p es = true →
-        mEvalList d (convertList es n) = (evalList numOf d es).map (fun b => some (pol n b))
-    | [], _, _ => by simp [convertList, mEvalList, evalList]
+        mEvalList d (convertList es n) = (evalByList numOf d es).map (fun b => some (pol n b))
+    | [], _, _ => by simp [convertList, mEvalList, evalByList]
     | x :: xs, n, h => by
       simp only [allLeavesList, Bool.and_eq_true] at h
-      simp [convertList, mEvalList, evalList, equiv_gen numOf d p hp x n h.1,
+      simp [convertList, mEvalList, evalByList, equiv_gen numOf d p hp x n h.1,
         equiv_genList numOf d p hp xs n h.2]
 end
 
@@ -509,30 +509,30 @@ theorem isArr_form {a : JV} (h : isArr a = true) : ∃ xs, a = .arr xs := by
 
 theorem junction_tf (x y : MDoc) : junction true false [x, y] = .and [x, y] := by simp [junction]
 theorem junction_ff (x y : MDoc) : junction false false [x, y] = .or [x, y] := by simp [junction]
-theorem mEval_and2 (d : Elem) (k : String) (o1 o2 : MOp) :
-    mEval d (.and [.field k o1, .field k o2]) = andOpt [evalOp o1 (lookup d k), evalOp o2 (lookup d k)] := by
+theorem mEval_and2 (d : Res) (k : String) (o1 o2 : MOp) :
+    mEval d (.and [.field k o1, .field k o2]) = andOpt [evalOp o1 (d k), evalOp o2 (d k)] := by
   simp [mEval, mEvalList]
-theorem mEval_or2 (d : Elem) (k : String) (o1 o2 : MOp) :
-    mEval d (.or [.field k o1, .field k o2]) = orOpt [evalOp o1 (lookup d k), evalOp o2 (lookup d k)] := by
+theorem mEval_or2 (d : Res) (k : String) (o1 o2 : MOp) :
+    mEval d (.or [.field k o1, .field k o2]) = orOpt [evalOp o1 (d k), evalOp o2 (d k)] := by
   simp [mEval, mEvalList]
 
 /-- contains, EVERY field value (scalar, list, object, missing), every argument, both polarities:
     `$elemMatch: {$eq: a}` selects exactly the documents whose field is a list with an element
     equal to `a` — the loop of MatchesCondition. -/
-theorem leaf_contains (numOf : String → Option Int) (d : Elem) (k : String) (a : JV) (n : Bool) :
-    mEval d (convert (.cond k .contains a) n) = some (pol n (matchesCond numOf (lookup d k) .contains a)) := by
+theorem leaf_contains (numOf : String → Option Int) (d : Res) (k : String) (a : JV) (n : Bool) :
+    mEval d (convert (.cond k .contains a) n) = some (pol n (matchesCond numOf (d k) .contains a)) := by
   cases n <;> simp only [convert, convCond, mEval, opOf, if_true, Bool.false_eq_true, if_false] <;>
-    cases lookup d k <;> simp [evalOp, matchesCond, pol]
+    cases d k <;> simp [evalOp, matchesCond, pol]
 
 /-- within / without whose argument is not a list: every field value, both polarities. -/
-theorem leaf_within_nonlist (numOf : String → Option Int) (d : Elem) (k : String) (a : JV) (n : Bool)
+theorem leaf_within_nonlist (numOf : String → Option Int) (d : Res) (k : String) (a : JV) (n : Bool)
     (ha : isArr a = false) :
-    mEval d (convert (.cond k .within a) n) = some (pol n (matchesCond numOf (lookup d k) .within a)) := by
+    mEval d (convert (.cond k .within a) n) = some (pol n (matchesCond numOf (d k) .within a)) := by
   cases a <;> simp [isArr] at ha <;> cases n <;> simp [convert, convCond, isArr, mEval, matchesCond, pol]
 
-theorem leaf_without_nonlist (numOf : String → Option Int) (d : Elem) (k : String) (a : JV) (n : Bool)
+theorem leaf_without_nonlist (numOf : String → Option Int) (d : Res) (k : String) (a : JV) (n : Bool)
     (ha : isArr a = false) :
-    mEval d (convert (.cond k .without a) n) = some (pol n (matchesCond numOf (lookup d k) .without a)) := by
+    mEval d (convert (.cond k .without a) n) = some (pol n (matchesCond numOf (d k) .without a)) := by
   cases a <;> simp [isArr] at ha <;> cases n <;> simp [convert, convCond, isArr, mEval, matchesCond, pol]
 
 /-- A range argument that is a list of exactly two values. -/
@@ -550,11 +550,11 @@ def isRange (c : Cond) : Bool :=
 
 /-- inside / outside / between whose argument is not a list of two values: every field value, both
     polarities (matchNone(not) against the early `return false` of MatchesCondition). -/
-theorem leaf_range_malformed (numOf : String → Option Int) (d : Elem) (k : String) (c : Cond)
+theorem leaf_range_malformed (numOf : String → Option Int) (d : Res) (k : String) (c : Cond)
     (a : JV) (n : Bool) (hc : c = .inside ∨ c = .outside ∨ c = .between)
     (ha : ∀ l u, a ≠ .arr [l, u]) :
-    mEval d (convert (.cond k c a) n) = some (pol n (matchesCond numOf (lookup d k) c a)) := by
-  have hcore : matchesCond numOf (lookup d k) c a = false := by
+    mEval d (convert (.cond k c a) n) = some (pol n (matchesCond numOf (d k) c a)) := by
+  have hcore : matchesCond numOf (d k) c a = false := by
     rcases hc with rfl | rfl | rfl <;> simp only [matchesCond, range3] <;>
       (cases a with
        | arr xs =>
@@ -579,9 +579,9 @@ theorem leaf_range_malformed (numOf : String → Option Int) (d : Elem) (k : Str
   rcases hc with rfl | rfl | rfl <;> simp only [convert, hconv] <;> cases n <;> rfl
 
 /-- The leaf case in the model's agreeing region, polarity `false`. -/
-theorem leaf_equiv (numOf : String → Option Int) (d : Elem) (k : String) (c : Cond) (a : JV)
-    (h : leafAgree numOf (lookup d k) c a = true) :
-    mEval d (convert (.cond k c a) false) = some (matchesCond numOf (lookup d k) c a) := by
+theorem leaf_equiv (numOf : String → Option Int) (d : Res) (k : String) (c : Cond) (a : JV)
+    (h : leafAgree numOf (d k) c a = true) :
+    mEval d (convert (.cond k c a) false) = some (matchesCond numOf (d k) c a) := by
   unfold leafAgree at h
   simp only [Bool.and_eq_true] at h
   obtain ⟨hs, h⟩ := h
@@ -604,41 +604,41 @@ theorem leaf_equiv (numOf : String → Option Int) (d : Elem) (k : String) (c : 
   case neq => simp [evalOp, matchesCond]
   case gt =>
     obtain ⟨b, rfl⟩ := isNumJ_form h.1
-    generalize lookup d k = v at hs h
+    generalize d k = v at hs h
     cases v <;> simp_all [isScalar, notNumText, evalOp, isGt, ordLt, matchesCond, cmp2, toNum]
   case gte =>
     obtain ⟨b, rfl⟩ := isNumJ_form h.1
-    generalize lookup d k = v at hs h
+    generalize d k = v at hs h
     cases v <;> simp_all [isScalar, notNumText, evalOp, isGt, isEq, ordLt, ordEq, matchesCond, cmp2, toNum]
     all_goals (first | omega | (rw [Bool.eq_iff_iff]; simp; omega))
   case lt =>
     obtain ⟨b, rfl⟩ := isNumJ_form h.1
-    generalize lookup d k = v at hs h
+    generalize d k = v at hs h
     cases v <;> simp_all [isScalar, notNumText, evalOp, isLt, ordLt, matchesCond, cmp2, toNum]
   case lte =>
     obtain ⟨b, rfl⟩ := isNumJ_form h.1
-    generalize lookup d k = v at hs h
+    generalize d k = v at hs h
     cases v <;> simp_all [isScalar, notNumText, evalOp, isLt, isEq, ordLt, ordEq, matchesCond, cmp2, toNum]
     all_goals (first | omega | (rw [Bool.eq_iff_iff]; simp; omega))
   case inside =>
     obtain ⟨lo, hi, rfl⟩ := isNumPair_form h.1
     simp only [convRange, junction_tf, junction_ff, convCond, opOf, Bool.false_eq_true, if_false,
       mEval_and2, mEval_or2]
-    generalize lookup d k = v at hs h ⊢
+    generalize d k = v at hs h ⊢
     cases v <;> simp_all [isScalar, notNumText, andOpt,
       evalOp, isGt, isLt, ordLt, matchesCond, range3, toSlice, toNum]
   case outside =>
     obtain ⟨lo, hi, rfl⟩ := isNumPair_form h.1
     simp only [convRange, junction_tf, junction_ff, convCond, opOf, Bool.false_eq_true, if_false,
       mEval_and2, mEval_or2]
-    generalize lookup d k = v at hs h ⊢
+    generalize d k = v at hs h ⊢
     cases v <;> simp_all [isScalar, notNumText, orOpt,
       evalOp, isGt, isLt, ordLt, matchesCond, range3, toSlice, toNum]
   case between =>
     obtain ⟨lo, hi, rfl⟩ := isNumPair_form h.1
     simp only [convRange, junction_tf, junction_ff, convCond, opOf, Bool.false_eq_true, if_false,
       mEval_and2, mEval_or2]
-    generalize lookup d k = v at hs h ⊢
+    generalize d k = v at hs h ⊢
     cases v <;> simp_all [isScalar, notNumText, andOpt,
       evalOp, isGt, isLt, isEq, ordLt, ordEq, matchesCond, range3, toSlice, toNum]
     all_goals (first | omega | (rw [Bool.eq_iff_iff]; simp; omega))
@@ -649,9 +649,9 @@ theorem leafAgree_wellFormed (numOf : String → Option Int) (v : JV) (c : Cond)
   cases c <;> simp_all [leafAgree, leafWellFormed]
 
 /-- …and under both polarities (the other one by push-down on the leaf). -/
-theorem leaf_equiv_pol (numOf : String → Option Int) (d : Elem) (k : String) (c : Cond) (a : JV)
-    (h : leafAgree numOf (lookup d k) c a = true) (n : Bool) :
-    mEval d (convert (.cond k c a) n) = some (pol n (matchesCond numOf (lookup d k) c a)) := by
+theorem leaf_equiv_pol (numOf : String → Option Int) (d : Res) (k : String) (c : Cond) (a : JV)
+    (h : leafAgree numOf (d k) c a = true) (n : Bool) :
+    mEval d (convert (.cond k c a) n) = some (pol n (matchesCond numOf (d k) c a)) := by
   have h0 := leaf_equiv numOf d k c a h
   cases n
   · rw [h0]; simp [pol]
@@ -673,20 +673,20 @@ def leafAgreeW (numOf : String → Option Int) (v : JV) (c : Cond) (a : JV) : Bo
   | _ => false
 
 mutual
-  def agreeW (numOf : String → Option Int) (d : Elem) : HasE → Bool
-    | .cond k c a => leafAgreeW numOf (lookup d k) c a
+  def agreeW (numOf : String → Option Int) (d : Res) : HasE → Bool
+    | .cond k c a => leafAgreeW numOf (d k) c a
     | .and es => agreeWList numOf d es
     | .or es => agreeWList numOf d es
     | .not x => agreeW numOf d x
     | .none => false
-  def agreeWList (numOf : String → Option Int) (d : Elem) : List HasE → Bool
+  def agreeWList (numOf : String → Option Int) (d : Res) : List HasE → Bool
     | [] => true
     | x :: xs => agreeW numOf d x && agreeWList numOf d xs
 end
 
-theorem leafW_equiv_pol (numOf : String → Option Int) (d : Elem) (k : String) (c : Cond) (a : JV)
-    (h : leafAgreeW numOf (lookup d k) c a = true) (n : Bool) :
-    mEval d (convert (.cond k c a) n) = some (pol n (matchesCond numOf (lookup d k) c a)) := by
+theorem leafW_equiv_pol (numOf : String → Option Int) (d : Res) (k : String) (c : Cond) (a : JV)
+    (h : leafAgreeW numOf (d k) c a = true) (n : Bool) :
+    mEval d (convert (.cond k c a) n) = some (pol n (matchesCond numOf (d k) c a)) := by
   unfold leafAgreeW at h
   rw [Bool.or_eq_true] at h
   rcases h with h | h
@@ -700,22 +700,22 @@ theorem leafW_equiv_pol (numOf : String → Option Int) (d : Elem) (k : String) 
     case between => exact leaf_range_malformed numOf d k _ a n (by simp) (twoBounds_false h)
 
 mutual
-  theorem agreeW_allLeaves (numOf : String → Option Int) (d : Elem) : ∀ (e : HasE),
-      agreeW numOf d e = allLeaves (fun k c a => leafAgreeW numOf (lookup d k) c a) e
+  theorem agreeW_allLeaves (numOf : String → Option Int) (d : Res) : ∀ (e : HasE),
+      agreeW numOf d e = allLeaves (fun k c a => leafAgreeW numOf (d k) c a) e
     | .cond _ _ _ => by simp [agreeW, allLeaves]
     | .and es => by simp only [agreeW, allLeaves]; exact agreeWList_allLeaves numOf d es
     | .or es => by simp only [agreeW, allLeaves]; exact agreeWList_allLeaves numOf d es
     | .not x => by simp only [agreeW, allLeaves]; exact agreeW_allLeaves numOf d x
     | .none => by simp [agreeW, allLeaves]
-  theorem agreeWList_allLeaves (numOf : String → Option Int) (d : Elem) : ∀ (es : List HasE),
-      agreeWList numOf d es = allLeavesList (fun k c a => leafAgreeW numOf (lookup d k) c a) es
+  theorem agreeWList_allLeaves (numOf : String → Option Int) (d : Res) : ∀ (es : List HasE),
+      agreeWList numOf d es = allLeavesList (fun k c a => leafAgreeW numOf (d k) c a) es
     | [] => rfl
     | x :: xs => by
       simp only [agreeWList, allLeavesList, agreeW_allLeaves numOf d x, agreeWList_allLeaves numOf d xs]
 end
 
 mutual
-  theorem agree_agreeW (numOf : String → Option Int) (d : Elem) : ∀ (e : HasE),
+  theorem agree_agreeW (numOf : String → Option Int) (d : Res) : ∀ (e : HasE),
       agree numOf d e = true → agreeW numOf d e = true
     | .cond _ _ _, h => by simp only [agree] at h; simp [agreeW, leafAgreeW, h]
     | .and es, h => by
@@ -725,7 +725,7 @@ mutual
     | .not x, h => by
       simp only [agree] at h; simp only [agreeW]; exact agree_agreeW numOf d x h
     | .none, h => by simp [agree] at h
-  theorem agreeList_agreeW (numOf : String → Option Int) (d : Elem) : ∀ (es : List HasE),
+  theorem agreeList_agreeW (numOf : String → Option Int) (d : Res) : ∀ (es : List HasE),
       agreeList numOf d es = true → agreeWList numOf d es = true
     | [], _ => rfl
     | x :: xs, h => by
@@ -734,20 +734,20 @@ mutual
 end
 
 /-- Agreement in the wide region, both polarities, any depth. -/
-theorem equivW (numOf : String → Option Int) (d : Elem) (e : HasE) (n : Bool)
+theorem equivW (numOf : String → Option Int) (d : Res) (e : HasE) (n : Bool)
     (h : agreeW numOf d e = true) :
-    mEval d (convert e n) = some (pol n (eval numOf d e)) := by
+    mEval d (convert e n) = some (pol n (evalBy numOf d e)) := by
   rw [agreeW_allLeaves] at h
   exact equiv_gen numOf d _ (fun k c a hk m => leafW_equiv_pol numOf d k c a hk m) e n h
 
 /-- Agreement in the model's region `agree`, both polarities, any depth. -/
-theorem equiv (numOf : String → Option Int) (d : Elem) (e : HasE) (n : Bool)
+theorem equiv (numOf : String → Option Int) (d : Res) (e : HasE) (n : Bool)
     (h : agree numOf d e = true) :
-    mEval d (convert e n) = some (pol n (eval numOf d e)) :=
+    mEval d (convert e n) = some (pol n (evalBy numOf d e)) :=
   equivW numOf d e n (agree_agreeW numOf d e h)
 
 mutual
-  theorem agreeW_wellFormed (numOf : String → Option Int) (d : Elem) : ∀ (e : HasE),
+  theorem agreeW_wellFormed (numOf : String → Option Int) (d : Res) : ∀ (e : HasE),
       agreeW numOf d e = true → wellFormed e = true
     | .cond k c a, h => by
       simp only [agreeW] at h
@@ -763,7 +763,7 @@ mutual
       simp only [agreeW] at h
       simp only [wellFormed]; exact agreeW_wellFormed numOf d x h
     | .none, h => by simp [agreeW] at h
-  theorem agreeWList_wellFormed (numOf : String → Option Int) (d : Elem) : ∀ (es : List HasE),
+  theorem agreeWList_wellFormed (numOf : String → Option Int) (d : Res) : ∀ (es : List HasE),
       agreeWList numOf d es = true → wellFormedList es = true
     | [], _ => rfl
     | x :: xs, h => by
@@ -806,13 +806,13 @@ theorem leafWhy_none (numOf : String → Option Int) (v : JV) (c : Cond) (a : JV
     all_goals simp
 
 mutual
-  theorem whys_nil (numOf : String → Option Int) (d : Elem) : ∀ (e : HasE),
+  theorem whys_nil (numOf : String → Option Int) (d : Res) : ∀ (e : HasE),
       whys numOf d e = [] → agreeW numOf d e = true
     | .cond k c a, h => by
       simp only [whys] at h
       simp only [agreeW]
       apply leafWhy_none
-      cases hq : leafWhy numOf (lookup d k) c a
+      cases hq : leafWhy numOf (d k) c a
       · rfl
       · simp [hq] at h
     | .and es, h => by
@@ -822,7 +822,7 @@ mutual
     | .not x, h => by
       simp only [whys] at h; simp only [agreeW]; exact whys_nil numOf d x h
     | .none, h => by simp [whys] at h
-  theorem whysList_nil (numOf : String → Option Int) (d : Elem) : ∀ (es : List HasE),
+  theorem whysList_nil (numOf : String → Option Int) (d : Res) : ∀ (es : List HasE),
       whysList numOf d es = [] → agreeWList numOf d es = true
     | [], _ => rfl
     | x :: xs, h => by
